@@ -132,7 +132,7 @@ def _final_check(proj, model, oracle, case, stats, log, tag):
     det = {}
     for ent in bobq.query(proj, want=("detail",)).values():
         s = ent["steps"]["src"]
-        if s.get("valid"):
+        if s.get("valid") and s.get("ws"):
             det[os.path.dirname(s["ws"])] = s.get("deterministic")
     bad = [sc for lab, sc in buildsim.step_scripts(r2)
            if lab in ("build", "dist") or (lab == "src" and det.get(os.path.dirname(sc)) is True)]
